@@ -86,9 +86,10 @@ class Sandbox(object):
             setv("user.name", "Foreign %s" % scope)
             setv("difftool.meld.cmd", 'meld "$LOCAL" "$REMOTE"')
             if x["gui"] != "unset":
-                setv("diff.guitool", "nbdime" if x["gui"] == "nbdime" else "meld")
+                # (at global scope the other tool's name CONTAINS "nbdime": a user's own wrapper script)
+                setv("diff.guitool", "nbdime" if x["gui"] == "nbdime" else ("meld" if scope == "repo" else "my-nbdime-lab"))
             if x["mtool"] != "unset":
-                setv("merge.tool", "nbdime" if x["mtool"] == "nbdime" else "kdiff3")
+                setv("merge.tool", "nbdime" if x["mtool"] == "nbdime" else ("kdiff3" if scope == "repo" else "nbdime2"))
             if x["dprompt"] != "unset":
                 setv("difftool.prompt", x["dprompt"])
             if x["mprompt"] != "unset":
@@ -102,9 +103,11 @@ class Sandbox(object):
                 if x["amerge"]:
                     lines.append(MLINE)
                 os.makedirs(os.path.dirname(self.afile(scope)), exist_ok=True)
-                with io.open(self.afile(scope), "w", encoding="utf8") as fh:
-                    # unrelated rules without a trailing newline are the interesting case for appending
-                    fh.write("\n".join(lines) + ("" if (x["aforeign"] and not x["adiff"]) else "\n" if lines else ""))
+                with io.open(self.afile(scope), "w", encoding="utf8", newline="") as fh:
+                    # unrelated rules without a trailing newline are the interesting case for appending;
+                    # the global file has CRLF line endings (written by a Windows editor; git reads it the same)
+                    nl = "\n" if scope == "repo" else "\r\n"
+                    fh.write(nl.join(lines) + ("" if (x["aforeign"] and not x["adiff"]) else nl if lines else ""))
 
     def project(self):
         out = {}
